@@ -386,7 +386,28 @@ func ruleLookupKeys(c *Ctx, rule string) {
 				}
 				return true
 			})
-			if name == "groupKeyToRow" || name == "" {
+			if name == "" {
+				return true
+			}
+			// a position map is indexed (somewhere) by something derived from a column reference; the map from
+			// group key to result row is indexed by a string built from row values
+			byColumn := false
+			ast.Inspect(f.Decl.Body, func(y ast.Node) bool {
+				ix, ok := y.(*ast.IndexExpr)
+				if !ok || exprKey(ix.X) != name {
+					return true
+				}
+				ast.Inspect(ix.Index, func(z ast.Node) bool {
+					if id, ok := z.(*ast.Ident); ok {
+						if t := f.TypeOf(id); t != nil && namedTypeIs(t, "sql", "ColumnReference") {
+							byColumn = true
+						}
+					}
+					return true
+				})
+				return true
+			})
+			if !byColumn {
 				return true
 			}
 			n++
